@@ -266,7 +266,7 @@ M('c11-listnames-no-lineno-reset', 'C11', 'C11.R2', SQP,
 M('c11-ast-not-cleared', 'C11', 'C11.R2', SQP, "            self.lex.ast = None\n", "")
 M('c11-new-lexer-counter', 'C11', 'C11.R2', edits=[
   (SQP, "        self.yacc = yacc.yacc(", "        self.lex.stmt_count = 0\n\n        self.yacc = yacc.yacc("),
-  (LEX, "        t.lexer.lineno += 1\n        return t", "        t.lexer.lineno += 1\n        t.lexer.stmt_count += 1\n        if t.lexer.stmt_count > 1000:\n            raise ParserError('too many statements')\n        return t")])
+  (LEX, "    if t.value == ';' or t.lexer.paren_count == 0:\n        return t", "    if t.value == ';' or t.lexer.paren_count == 0:\n        t.lexer.stmt_count += 1\n        if t.lexer.stmt_count > 1000:\n            raise ParserError('too many statements')\n        return t")])
 M('c11-scopes-cached-on-parser', 'C11', None, SQP,
   "        scoped_names = ScopedDict({**FUNCTIONS})\n",
   "        if not hasattr(self, '_scoped'):\n            self._scoped = ScopedDict({**FUNCTIONS})\n        scoped_names = self._scoped\n")
@@ -326,8 +326,8 @@ M('c16-sys-exit-on-limit', 'C16', 'C16.R7', edits=[
   (FUN, "        raise ParserError(f'Array size overflow: {MAX_ARRAY_SIZE}')", "        sys.exit(f'Array size overflow: {MAX_ARRAY_SIZE}')")])
 
 B('c16-perror-isnot-none', 'C16', RUL,
-  "    if p is None:\n        raise ParserError('Syntax error: unexpected end of input')\n\n    raise ParserError(f'Syntax error: {p.value} at line {p.lexer.lineno}')",
-  "    if p is not None:\n        raise ParserError(f'Syntax error: {p.value} at line {p.lexer.lineno}')\n    raise ParserError('Syntax error: unexpected end of input')")
+  "    if p is None:\n        raise ParserError('Syntax error: unexpected end of input')\n\n    raise ParserError(f'Syntax error: {p.value} at line {p.lineno}')",
+  "    if p is not None:\n        raise ParserError(f'Syntax error: {p.value} at line {p.lineno}')\n    raise ParserError('Syntax error: unexpected end of input')")
 B('c16-nameop-keyerror', 'C16', AST,
   "        except LookupError:\n            raise ParserError(f'Undefined variable {self.name}')\n\n        return value", "        except KeyError:\n            raise ParserError(f'Undefined variable {self.name}')\n\n        return value")
 B('c16-getitem-two-classes', 'C16', FUN,
